@@ -1,91 +1,185 @@
 //go:build verif
 
 // Contracts of the decoder (see zz_verif_contracts.go for the format).  Comment-only file.
+//
+// Ghosts: @nvals    number of complete nested values read at this level (each ReadData/readStruct/ReadList
+//                   call that succeeds counts one; level-local: a nested reader restores it)
+//         @selfregs number of registrations in the reference table made directly at this level (level-local)
+//         @lastreader which structural reader served the last dispatch (1 typed list, 2 untyped list, 3 typed map,
+//                   4 untyped map, 5 object definition, 6 compact instance, 7 long instance, 8 ref)
+//         @dstartcls/@dstartrefs/@dstarttyps sizes of the decoder tables when the value's decoding began
 
 package hessian
 
-// @rd: level-local trace of read events; @ropens: number of container-opening tags consumed so far.
+// ---------------------------------------------------------------- reference table (C04)
 
 //@ func (*Decoder).addDecoderRef
-//@   assigns d.refList
+//@   assigns d.refList, @selfregs
+//@   sets @selfregs = old(@selfregs) + 1
 //@   ensures [C04:dec-register] len(d.refList) == len(old(d.refList)) + 1
 
 //@ func (*Decoder).readRef
-//@   assigns @pos, @E
-//@   ensures [C14:ref-total] true
+//@   assigns @pos, @E, @lastreader
+//@   sets @lastreader = 8
+//@   ensures [C04,C14:ref-in-table] err == nil ==> tag == 0x51
+//@   proves  [C04:ref-denotes] err == nil ==> 0 <= idx && idx < len(d.refList)
+
+// ---------------------------------------------------------------- types and class definitions (C03, C05)
 
 //@ func (*Decoder).readType
 //@   assigns @pos, @E, @declared, d.typList
-//@   ensures [C14:type-total] true
+//@   ensures [C03:type-table-grows] len(d.typList) >= len(old(d.typList)) && len(d.typList) <= len(old(d.typList)) + 1
+//@   proves  [C03,C14:type-ref-in-table] err == nil && !G.isStr(tag) ==> 0 <= index && index < len(d.typList)
 
 //@ func (*Decoder).readClassDef
 //@   assigns @pos, @E, @declared
-//@   loop 1 invariant [C14:clsdef-index] 0 <= i
-//@   ensures [C14:classdef-total] true
+//@   loop 1 invariant [C14,C05:clsdef-index] 0 <= i && i <= int(count) && len(fields) == int(count)
+//@   ensures [C05:classdef-total] true
+
+//@ func findField
+//@   assigns @E
+//@   loop 1 invariant [C05:find-index] 0 <= i
+//@   ensures [C05:find-range] err == nil ==> 0 <= result0 && result0 < R.tNumField(typ)
+//@   ensures [C05:find-by-name] err == nil ==> R.tFieldName(typ, result0) == name || R.tFieldName(typ, result0) == R.capName(name)
 
 //@ func (*Decoder).readObject
-//@   assigns @pos, @E, @declared, @rset, d.typList, d.refList, d.clsDefList
-//@   loop 1 invariant [C14:object-index] 0 <= i
-//@   ensures [C14:object-total] true
+//@   assigns @pos, @E, @declared, @rset, @nvals, @selfregs, @lastreader, @dstartcls, @dstartrefs, @dstarttyps, d.typList, d.refList, d.clsDefList
+//@   loop 1 invariant [C14,C05:object-index] 0 <= i && i <= len(cls.FieldName)
+//@   loop 1 invariant [C04:object-registered-first] @selfregs == old(@selfregs) + 1 && len(d.refList) >= len(old(d.refList)) + 1
+//@   loop 1 invariant [C05,C06:object-one-value-per-field] @nvals == old(@nvals) + i
+//@   ensures [C05,C06:object-production] err == nil ==> @nvals == old(@nvals) + len(cls.FieldName)
+//@   ensures [C04:object-registered] err == nil ==> @selfregs == old(@selfregs) + 1
+//@   ensures [C06:tables-grow] len(d.clsDefList) >= len(old(d.clsDefList)) && len(d.refList) >= len(old(d.refList)) && len(d.typList) >= len(old(d.typList))
 
 //@ func (*Decoder).readField
-//@   assigns @pos, @E, @declared, @rset, d.typList, d.refList, d.clsDefList
-//@   ensures [C14:field-total] true
+//@   assigns @pos, @E, @declared, @rset, @nvals, @selfregs, @lastreader, @dstartcls, @dstartrefs, @dstarttyps, d.typList, d.refList, d.clsDefList
+//@   summary @nvals = old(@nvals) + 1
+//@   summary @selfregs = old(@selfregs)
+//@   ensures [C05:field-total] true
+//@   ensures [C06:tables-grow] len(d.clsDefList) >= len(old(d.clsDefList)) && len(d.refList) >= len(old(d.refList)) && len(d.typList) >= len(old(d.typList))
 
 //@ func (*Decoder).readTagObject
-//@   assigns @pos, @E, @declared, @rset, d.typList, d.refList, d.clsDefList
-//@   ensures [C14:tagobject-total] true
+//@   assigns @pos, @E, @declared, @rset, @nvals, @selfregs, @lastreader, @dstartcls, @dstartrefs, @dstarttyps, d.typList, d.refList, d.clsDefList
+//@   sets @lastreader = 7
+//@   proves [C05,C14:long-instance-index] err == nil ==> 0 <= idx && idx < len(old(d.clsDefList))
+//@   ensures [C05:tagobject-total] true
+//@   ensures [C06:tables-grow] len(d.clsDefList) >= len(old(d.clsDefList)) && len(d.refList) >= len(old(d.refList)) && len(d.typList) >= len(old(d.typList))
 
 //@ func (*Decoder).ReadLenTagObject
-//@   assigns @pos, @E, @declared, @rset, d.typList, d.refList, d.clsDefList
-//@   ensures [C14:lentagobject-total] true
+//@   requires 0x60 <= tag && tag <= 0x6f
+//@   assigns @pos, @E, @declared, @rset, @nvals, @selfregs, @lastreader, @dstartcls, @dstartrefs, @dstarttyps, d.typList, d.refList, d.clsDefList
+//@   sets @lastreader = 6
+//@   ensures [C05,C14:compact-instance-index] err == nil ==> 0x60 <= tag && int(tag) - 0x60 < len(old(d.clsDefList))
+//@   ensures [C06:tables-grow] len(d.clsDefList) >= len(old(d.clsDefList)) && len(d.refList) >= len(old(d.refList)) && len(d.typList) >= len(old(d.typList))
 
 //@ func (*Decoder).readObjectDef
-//@   assigns @pos, @E, @declared, @rset, d.typList, d.refList, d.clsDefList
-//@   ensures [C14:objectdef-total] true
+//@   assigns @pos, @E, @declared, @rset, @nvals, @selfregs, @lastreader, @dstartcls, @dstartrefs, @dstarttyps, d.typList, d.refList, d.clsDefList
+//@   ensures [C05:def-appended] err == nil ==> len(d.clsDefList) >= len(old(d.clsDefList)) + 1
+//@   ensures [C06:tables-grow] len(d.clsDefList) >= len(old(d.clsDefList)) && len(d.refList) >= len(old(d.refList)) && len(d.typList) >= len(old(d.typList))
+
+// ---------------------------------------------------------------- lists (C03, C04, C06, C14)
 
 //@ func (*Decoder).readTypedList
-//@   assigns @pos, @E, @declared, @rset, d.typList, d.refList, d.clsDefList
-//@   loop 1 invariant [C14:typedlist-index] 0 <= j
-//@   ensures [C14:typedlist-total] true
+//@   assigns @pos, @E, @declared, @rset, @nvals, @selfregs, @lastreader, @dstartcls, @dstartrefs, @dstarttyps, d.typList, d.refList, d.clsDefList
+//@   sets @lastreader = 1
+//@   loop 1 invariant [C14,C03:typedlist-index] (isVariableArr || (0 <= j && j <= length)) && 0 <= length
+//@   loop 1 invariant [C03,C06:typedlist-one-value-per-element] @nvals == old(@nvals) + j
+//@   loop 1 invariant [C04:typedlist-registered-first] @selfregs == old(@selfregs) + 1 && len(d.refList) >= len(old(d.refList)) + 1
+//@   proves  [C03,C06:typedlist-count]   err == nil && result0 != nil && tag != 0x55 ==> @nvals == old(@nvals) + length
+//@   proves  [C03:typedlist-compact-len] err == nil && result0 != nil && 0x70 <= tag && tag <= 0x77 ==> length == int(tag) - 0x70
+//@   ensures [C04:typedlist-registered]  err == nil && result0 != nil ==> @selfregs == old(@selfregs) + 1
+//@   ensures [C06:tables-grow] len(d.clsDefList) >= len(old(d.clsDefList)) && len(d.refList) >= len(old(d.refList)) && len(d.typList) >= len(old(d.typList))
 
 //@ func (*Decoder).readUntypedList
-//@   assigns @pos, @E, @declared, @rset, d.typList, d.refList, d.clsDefList
-//@   loop 1 invariant [C14:untypedlist-index] 0 <= j
-//@   ensures [C14:untypedlist-total] true
+//@   assigns @pos, @E, @declared, @rset, @nvals, @selfregs, @lastreader, @dstartcls, @dstartrefs, @dstarttyps, d.typList, d.refList, d.clsDefList
+//@   sets @lastreader = 2
+//@   loop 1 invariant [C14,C03:untypedlist-index] (isVariableArr || (0 <= j && j <= length)) && 0 <= length && (!isVariableArr ==> len(ary) == length)
+//@   loop 1 invariant [C03,C06:untypedlist-one-value-per-element] @nvals == old(@nvals) + j
+//@   loop 1 invariant [C04:untypedlist-registered-first] @selfregs == old(@selfregs) + 1 && len(d.refList) >= len(old(d.refList)) + 1
+//@   proves  [C03,C06:untypedlist-count]   err == nil && result0 != nil && tag != 0x57 ==> @nvals == old(@nvals) + length
+//@   proves  [C03:untypedlist-compact-len] err == nil && result0 != nil && 0x78 <= tag && tag <= 0x7f ==> length == int(tag) - 0x78
+//@   ensures [C04:untypedlist-registered]  err == nil && result0 != nil ==> @selfregs == old(@selfregs) + 1
+//@   ensures [C06:tables-grow] len(d.clsDefList) >= len(old(d.clsDefList)) && len(d.refList) >= len(old(d.refList)) && len(d.typList) >= len(old(d.typList))
 
 //@ func (*Decoder).ReadList
 //@   requires flag == -1 || (0 <= flag && flag <= 255)
-//@   assigns @pos, @E, @declared, @rset, d.typList, d.refList, d.clsDefList
-//@   ensures [C14:list-total] true
+//@   assigns @pos, @E, @declared, @rset, @nvals, @selfregs, @lastreader, @dstartcls, @dstartrefs, @dstarttyps, d.typList, d.refList, d.clsDefList
+//@   summary @nvals = old(@nvals) + ite(err == nil, 1, 0)
+//@   summary @selfregs = old(@selfregs)
+//@   ensures [C01,C03:list-dispatch-typed]   err == nil && flag != -1 && (byte(flag) == 'V' || byte(flag) == 0x55 || (0x70 <= byte(flag) && byte(flag) <= 0x77)) ==> @lastreader == 1
+//@   ensures [C01,C03:list-dispatch-untyped] err == nil && flag != -1 && (byte(flag) == 0x58 || byte(flag) == 0x57 || (0x78 <= byte(flag) && byte(flag) <= 0x7f)) ==> @lastreader == 2
+//@   ensures [C01,C03:list-dispatch-ref]     err == nil && flag != -1 && byte(flag) == 0x51 ==> @lastreader == 8
+//@   ensures [C06:tables-grow] len(d.clsDefList) >= len(old(d.clsDefList)) && len(d.refList) >= len(old(d.refList)) && len(d.typList) >= len(old(d.typList))
+
+// ---------------------------------------------------------------- maps (C03, C04, C06)
 
 //@ func (*Decoder).readTypedMap
-//@   assigns @pos, @E, @declared, @rset, d.typList, d.refList, d.clsDefList
-//@   loop 1 invariant [C14:typedmap-loop] true
-//@   ensures [C14:typedmap-total] true
+//@   assigns @pos, @E, @declared, @rset, @nvals, @selfregs, @lastreader, @dstartcls, @dstartrefs, @dstarttyps, d.typList, d.refList, d.clsDefList
+//@   sets @lastreader = 3
+//@   loop 1 invariant [C04:typedmap-registered-first] @selfregs == old(@selfregs) + 1 && len(d.refList) >= len(old(d.refList)) + 1
+//@   ensures [C04:typedmap-registered] err == nil ==> @selfregs == old(@selfregs) + 1
+//@   ensures [C06:tables-grow] len(d.clsDefList) >= len(old(d.clsDefList)) && len(d.refList) >= len(old(d.refList)) && len(d.typList) >= len(old(d.typList))
 
 //@ func (*Decoder).readUntypedMap
-//@   assigns @pos, @E, @declared, @rset, d.typList, d.refList, d.clsDefList
-//@   loop 1 invariant [C14:untypedmap-loop] true
-//@   ensures [C14:untypedmap-total] true
+//@   assigns @pos, @E, @declared, @rset, @nvals, @selfregs, @lastreader, @dstartcls, @dstartrefs, @dstarttyps, d.typList, d.refList, d.clsDefList
+//@   sets @lastreader = 4
+//@   loop 1 invariant [C04:untypedmap-registered-first] @selfregs == old(@selfregs) + 1 && len(d.refList) >= len(old(d.refList)) + 1
+//@   ensures [C04:untypedmap-registered] err == nil ==> @selfregs == old(@selfregs) + 1
+//@   ensures [C06:untypedmap-no-carrier] err == nil ==> result0 != nil
+//@   ensures [C06:tables-grow] len(d.clsDefList) >= len(old(d.clsDefList)) && len(d.refList) >= len(old(d.refList)) && len(d.typList) >= len(old(d.typList))
 
 //@ func (*Decoder).readMap
-//@   assigns @pos, @E, @declared, @rset, d.typList, d.refList, d.clsDefList
-//@   loop 1 invariant [C14:map-loop] true
-//@   ensures [C14:map-total] true
+//@   assigns @pos, @E, @declared, @rset, @nvals, @selfregs, @lastreader, @dstartcls, @dstartrefs, @dstarttyps, d.typList, d.refList, d.clsDefList
+//@   loop 1 invariant [C04:map-registered-first] @selfregs == old(@selfregs) + 1 && len(d.refList) >= len(old(d.refList)) + 1
+//@   ensures [C04:map-total] true
+//@   ensures [C06:tables-grow] len(d.clsDefList) >= len(old(d.clsDefList)) && len(d.refList) >= len(old(d.refList)) && len(d.typList) >= len(old(d.typList))
+
+// ---------------------------------------------------------------- dispatch (C01, C03, C06)
 
 //@ func (*Decoder).readStruct
-//@   assigns @pos, @E, @declared, @rset, d.typList, d.refList, d.clsDefList
-//@   ensures [C14:struct-total] true
+//@   assigns @pos, @E, @declared, @rset, @nvals, @selfregs, @lastreader, @dstartcls, @dstartrefs, @dstarttyps, d.typList, d.refList, d.clsDefList
+//@   summary @nvals = old(@nvals) + ite(err == nil, 1, 0)
+//@   summary @selfregs = old(@selfregs)
+//@   let avail = old(@pos) < len(@in)
+//@   let tg    = @in[old(@pos)]
+//@   proves [C14,C06:struct-eof]      !avail ==> err != nil
+//@   proves [C01,C10:struct-null]     avail && tg == 'N' ==> err == nil && result0 == nil && @pos == old(@pos) + 1
+//@   proves [C01,C05:struct-compact]  avail && err == nil && 0x60 <= tg && tg <= 0x6f ==> @lastreader == 6
+//@   proves [C01,C05:struct-long]     avail && err == nil && tg == 'O' ==> @lastreader == 7
+//@   proves [C01,C04:struct-ref]      avail && err == nil && tg == 0x51 ==> @lastreader == 8
+//@   proves [C01,C03:struct-reject]   avail && !(tg == 'Z' || tg == 'N' || tg == 0x4a || tg == 0x4b || tg == 'C' || tg == 'O' || tg == 0x51 || (0x60 <= tg && tg <= 0x6f)) ==> err != nil
+//@   ensures [C06:tables-grow] len(d.clsDefList) >= len(old(d.clsDefList)) && len(d.refList) >= len(old(d.refList)) && len(d.typList) >= len(old(d.typList))
 
 //@ func (*Decoder).ReadData
-//@   assigns @pos, @E, @declared, @rset, d.typList, d.refList, d.clsDefList
-//@   ensures [C14:data-total] true
+//@   assigns @pos, @E, @declared, @rset, @nvals, @selfregs, @lastreader, @dstartcls, @dstartrefs, @dstarttyps, d.typList, d.refList, d.clsDefList
+//@   sets @dstartcls = len(old(d.clsDefList))
+//@   sets @dstartrefs = len(old(d.refList))
+//@   sets @dstarttyps = len(old(d.typList))
+//@   summary @nvals = old(@nvals) + ite(err == nil, 1, 0)
+//@   summary @selfregs = old(@selfregs)
+//@   let avail = old(@pos) < len(@in)
+//@   let tg    = @in[old(@pos)]
+//@   let p1    = old(@pos) + 1
+//@   proves [C14,C06:data-eof]       !avail ==> err != nil
+//@   proves [C01,C03:data-null]      avail && tg == 'N' ==> err == nil && result0 == nil && @pos == p1
+//@   proves [C01,C03:data-end]       avail && tg == 'Z' ==> err == io.EOF && @pos == p1
+//@   proves [C01,C03:data-true]      avail && tg == 'T' ==> err == nil && istype(result0, "bool") && i.bool(result0) && @pos == p1
+//@   proves [C01,C03:data-false]     avail && tg == 'F' ==> err == nil && istype(result0, "bool") && !i.bool(result0) && @pos == p1
+//@   proves [C01,C03,C07:data-int]   avail && G.isInt(tg) && p1 + G.intRest(tg) <= len(@in) ==> err == nil && istype(result0, "int32") && i.bv32(result0) == G.decIntT(tg, @in, p1) && @pos == p1 + G.intRest(tg)
+//@   proves [C01,C03,C07:data-long]  avail && G.isLong(tg) && p1 + G.longRest(tg) <= len(@in) ==> err == nil && istype(result0, "int64") && i.bv64(result0) == G.decLongT(tg, @in, p1) && @pos == p1 + G.longRest(tg)
+//@   proves [C01,C03,C08:data-double] avail && G.isDouble(tg) && p1 + G.doubleRest(tg) <= len(@in) ==> err == nil && istype(result0, "float64") && same(i.f64(result0), G.decDoubleT(tg, @in, p1)) && @pos == p1 + G.doubleRest(tg)
+//@   proves [C01,C03,C10:data-date]  avail && G.isDate(tg) && p1 + G.dateRest(tg) <= len(@in) ==> err == nil && istype(result0, "time.Time") && @pos == p1 + G.dateRest(tg)
+//@   proves [C01,C03:data-typedlist]   avail && err == nil && (tg == 'V' || tg == 0x55 || (0x70 <= tg && tg <= 0x77)) ==> @lastreader == 1
+//@   proves [C01,C03:data-untypedlist] avail && err == nil && (tg == 0x58 || tg == 0x57 || (0x78 <= tg && tg <= 0x7f)) ==> @lastreader == 2
+//@   proves [C01,C03:data-typedmap]    avail && err == nil && tg == 'M' ==> @lastreader == 3
+//@   proves [C01,C03:data-untypedmap]  avail && err == nil && tg == 'H' ==> @lastreader == 4
+//@   proves [C01,C05:data-compact-instance] avail && err == nil && 0x60 <= tg && tg <= 0x6f ==> @lastreader == 6
+//@   proves [C01,C05:data-long-instance]    avail && err == nil && tg == 'O' ==> @lastreader == 7
+//@   proves [C01,C04:data-ref]        avail && err == nil && tg == 0x51 ==> @lastreader == 8
+//@   proves [C03,C14:data-reject]     avail && (tg == 0x40 || tg == 0x45 || tg == 0x47 || tg == 0x50) ==> err != nil
+//@   ensures [C06:tables-grow] len(d.clsDefList) >= len(old(d.clsDefList)) && len(d.refList) >= len(old(d.refList)) && len(d.typList) >= len(old(d.typList))
 
-//@ func findField
-//@   pure
-//@   loop 1 invariant [C05:find-index] 0 <= i
-//@   ensures [C05:find-range] err == nil ==> 0 <= result0 && result0 < R.tNumField(typ)
+// ---------------------------------------------------------------- value plumbing (bounded stand-in covers the assignments)
 
 //@ func SetValue
 //@   assigns @rset
@@ -96,6 +190,9 @@ package hessian
 //@ func SetSlice
 //@   assigns @rset
 //@   ensures [C14:setslice-total] true
+
+//@ func (*_refHolder).notify
+//@   loop 1 invariant [C14:notify-index] true
 
 //@ func ConvertSliceValueType
 //@   assigns @rset
@@ -108,8 +205,41 @@ package hessian
 
 //@ func EnsureInterface
 //@   pure
-//@   ensures [C06:ensure-interface-err] err != nil ==> result1 == err
+//@   ensures [C06:ensure-interface-err] result1 == err && (err != nil ==> result0 == in)
+//@   ensures [C06:non-carrier-unchanged] err == nil && !istype(in, "reflect.Value") && !istype(in, "*_refHolder") ==> result0 == in
+//@   ensures [C06:value-unwrapped] err == nil && istype(in, "reflect.Value") && !istype(R.iface(i.rv(in)), "*_refHolder") ==> result0 == R.iface(i.rv(in))
 
 //@ func PackPtr
 //@   pure
 //@   ensures [C14:packptr-total] true
+
+// ---------------------------------------------------------------- entry points (C06, C11)
+
+//@ func NewDecoder
+//@   ensures [C11,C17:new-decoder] fresh(result) && result.typMap != nil && (typ != nil ==> result.typMap == typ)
+
+//@ func (*Decoder).ReadObject
+//@   assigns @pos, @E, @declared, @rset, @nvals, @selfregs, @lastreader, @dstartcls, @dstartrefs, @dstarttyps, d.typList, d.refList, d.clsDefList
+//@   ensures [C06:one-value] err == nil ==> @nvals == old(@nvals) + 1
+//@   ensures [C06:tables-continue] @dstartcls == len(old(d.clsDefList)) && @dstartrefs == len(old(d.refList)) && @dstarttyps == len(old(d.typList))
+//@   ensures [C06:tables-grow] len(d.clsDefList) >= len(old(d.clsDefList)) && len(d.refList) >= len(old(d.refList)) && len(d.typList) >= len(old(d.typList))
+
+//@ func (*Decoder).ReadFrom
+//@   assigns @pos, @E, @declared, @rset, @nvals, @selfregs, @lastreader, @dstartcls, @dstartrefs, @dstarttyps, d.reader, d.typList, d.refList, d.clsDefList
+//@   ensures [C11:one-shot-from-reset-state] @dstartcls == 0 && @dstartrefs == 0 && @dstarttyps == 0 && d.reader == reader
+
+//@ func (*goHessian).Read
+//@   ensures [C06:tables-continue] @dstartcls == len(old(gh.decoder.clsDefList)) && @dstartrefs == len(old(gh.decoder.refList))
+
+//@ func (*goHessian).ReadFrom
+//@   ensures [C11:one-shot-from-reset-state] @dstartcls == 0 && @dstartrefs == 0 && @dstarttyps == 0
+
+//@ func (*Decoder).Decode
+//@   assigns @pos, @E, @declared, @rset, @nvals, @selfregs, @lastreader, @dstartcls, @dstartrefs, @dstarttyps, d.reader, d.typList, d.refList, d.clsDefList
+//@   ensures [C11:one-shot-from-reset-state] @dstartcls == 0 && @dstartrefs == 0 && @dstarttyps == 0
+
+//@ func ToObject
+//@   ensures [C11:one-shot-from-reset-state] @dstartcls == 0 && @dstartrefs == 0 && @dstarttyps == 0
+
+//@ func (*goHessian).ToObject
+//@   ensures [C11:one-shot-from-reset-state] @dstartcls == 0 && @dstartrefs == 0 && @dstarttyps == 0
